@@ -15,6 +15,7 @@
 package s2
 
 import (
+	"fmt"
 	"io"
 	"math"
 
@@ -507,8 +508,16 @@ func (c *Cell) Decode(r io.Reader) error {
 }
 
 func (c *Cell) decode(d *decoder) {
-	c.id.decode(d)
-	*c = CellFromCellID(c.id)
+	var id CellID
+	id.decode(d)
+	if d.err != nil {
+		return
+	}
+	if !id.IsValid() {
+		d.err = fmt.Errorf("invalid cell id %#x", uint64(id))
+		return
+	}
+	*c = CellFromCellID(id)
 }
 
 // vertexChordDist2 returns the squared chord distance from point P to the
